@@ -11,26 +11,16 @@ type tabEntry struct {
 }
 
 var boundsTable = map[string]tabEntry{
-	"executor.(*DepthExecutor).Execute$4/‹[]*executor.DepthExecutorResponse›[‹*executor.groupResponse›.index]": {1,
-		"positional reducer: the accumulator is made with len(groupedRequests) slots and every result carries an index drawn from lo.Range(len(groupedRequests)) — both checked by R9b (class POS-index) on every run"},
-	"executor.(*DepthExecutor).parseRespones$2/‹[]*executor.DepthExecutorResponse›[‹*executor.indexedResponse›.index]": {1,
-		"positional reducer: the accumulator is made with len(queryerResponses) slots and every result carries an index drawn from lo.Range(len(queryerResponses)) — both checked by R9b (class POS-index) on every run"},
 	"executor.(*DepthExecutor).executeRequests/‹[]*executor.ExecutionRequest›[‹int›]": {2,
 		"both index values were recorded from `range ers` in this very call (iMap.Set(i, …) and nillResps[i]) and ers is not re-sliced"},
 	"executor.ExtractValueModifyingSource/‹[]interface{}›[‹*executor.PointData›.Index]": {2,
 		"the list was padded to Index+1 three statements earlier; points that reach this branch satisfy isListElement, so Extract parsed a non-negative index written by FindInsertionPoints from a range index"},
 	"executor.FindInsertionPoints/‹[][]string›[‹int›][‹int›]": {4,
 		"every branch of oldBranch was extended to length pointI+1 by `oldBranch[i] = append(points, point)` immediately above; i ranges over oldBranch"},
-	"executor.mergeOrRewriteMap/‹[]interface{}›[‹int›]": {1,
-		"both call sites (mergeSlices) pass rIdx under `rIdx < len(lSlice)`; rIdx is a range index"},
-	"executor.mergeSlices/‹[]interface{}›[‹int›]": {1,
-		"guarded by leftEntityPosition >= 0; getLeftEntityPosition returns -1 or an index it just visited in the same slice"},
 	"executor.copy2DStringArray/‹[][]string›[‹int›][‹int›]": {1,
 		"res[i] was made with len(p) in the enclosing iteration and j ranges over p"},
 	"pebbles.(Results).Emit/‹pebbles.Results›[0]": {1,
 		"non-batch mode: parseRequest builds exactly one request when IsBatchMode is false and the accumulator is made with len(rs.Requests)"},
-	"pebbles.(*Gateway).queryHandler$2/‹pebbles.Results›[‹*pebbles.Result›.index]": {1,
-		"acc is made with len(rs.Requests); index is the closure parameter drawn from lo.Range(len(rs.Requests)) and is carried by every returned Result (rule R13h)"},
 	"queryer.(*MultiOpQueryer).Query$1/‹[]*requests.Request›[‹int›*‹*queryer.MultiOpQueryer›.maxBatchSize:(‹int›+1)*‹*queryer.MultiOpQueryer›.maxBatchSize]": {1,
 		"taken only when (i+1)*m <= lInputs (else-branch of the test above)"},
 	"queryer.(*MultiOpQueryer).Query$2/‹[]map[string]interface{}›[(‹*queryer.chunkResponse›.Index+1)*‹*queryer.MultiOpQueryer›.maxBatchSize:]": {1,
@@ -48,8 +38,8 @@ var boundsTable = map[string]tabEntry{
 }
 
 var assertTable = map[string]tabEntry{
-	"executor.mergeSlices/.(map[string]interface{}) on interface{}": {1,
-		"getLeftEntityPosition returned this position only after asserting the same element to map[string]interface{}"},
+	// (empty: the one unchecked assertion of the request path, the element getLeftEntityPosition
+	// found, is discharged by computation — R7.P2 searchedElementAssert)
 }
 
 var panicTable = map[string]tabEntry{
@@ -58,8 +48,9 @@ var panicTable = map[string]tabEntry{
 }
 
 var divTable = map[string]tabEntry{
-	"queryer.(*MultiOpQueryer).Query/divide-by queryer.MultiOpQueryer.maxBatchSize": {1,
-		"precondition of C11 (m >= 1); every constructor call inside the module passes a constant >= 1 (rule R13j); when m == 0 and there are inputs the division is reached, so R13j is the discharge"},
+	// (empty: the one division of the module, by MultiOpQueryer.maxBatchSize, is discharged by
+	// computation — R7.P6 divisorFieldPositive. The former entry cited a rule "R13j" that was
+	// never implemented: fourth audit)
 }
 
 var nilTable = map[string]tabEntry{
@@ -69,8 +60,6 @@ var nilTable = map[string]tabEntry{
 		"the loop runs depth 0..maxDepth; walkPlanStep records depth d+1 only below a step of depth d, so every depth up to the maximum key has an executor (depth 0 is tested explicitly since the fix for the empty plan)"},
 	"pebbles.(*Gateway).newSubscriptionEntry/map lookup map[string]queryer.Queryer[…] without comma-ok": {1,
 		"getQueryers inserts an entry for the URL of every step it is given, and rootStep is one of those steps"},
-	"introspection.parseTypeRef/pointer field introspection.IntrospectionTypeRef.OfType of a JSON-decoded struct": {3,
-		"introspectRemoteSchema converts a type only after checkTypeRefs accepted it, and a directive's arguments only after the same test: every reference handed to parseTypeRef can be followed down to a named type (IntrospectionTypeRef.complete), so the wrappers it steps through carry ofType. Until the repair eb5f9b2 this line claimed that a spec-compliant answer always carries ofType; it does not for a type wrapped deeper than the query's TypeRef fragment selects (audit)"},
 }
 
 // errTable: deliberate drops / fallbacks, confirmed by reading.
